@@ -49,6 +49,9 @@ func (e *Engine) call(fr *frame, st *State, in *ssa.Call) *State {
 	var callees []*ssa.Function
 	var args []ssa.Value
 	if c.IsInvoke() {
+		if e.Trace != nil && fr.check && !e.isNonNil(st, c.Value) {
+			e.trace("INVOKE-NIL %s recv=%s vid=%s state=%s", in, c.Value, e.vid(c.Value), st.String())
+		}
 		e.oblige(fr, "B-NIL", in, "invoke", e.isNonNil(st, c.Value), "method call on a possibly nil interface value")
 		callees = e.callees[in]
 		args = append([]ssa.Value{c.Value}, c.Args...)
@@ -705,6 +708,11 @@ func (e *Engine) builtin(fr *frame, st *State, in *ssa.Call, b *ssa.Builtin) {
 		e.fresh(st, in)
 	case "panic":
 		e.oblige(fr, "B-PANIC", in, "panic", false, "explicit panic")
+	case "ssa:wrapnilchk":
+		// wrapper methods check their receiver: the result is the (non-nil) receiver
+		e.oblige(fr, "B-NIL", in, "wrapnilchk", e.isNonNil(st, c.Args[0]), "value method called through a possibly nil pointer")
+		e.copyValue(st, in, c.Args[0])
+		st.nonnil[e.vid(in)] = true
 	case "recover", "print", "println", "delete", "clear":
 	default:
 		e.fresh(st, in)
@@ -867,8 +875,8 @@ func (e *Engine) reflectCall(fr *frame, st *State, in *ssa.Call, name string, ar
 		}
 		st.Bind(e.atomOf(in), Var(a))
 	}
-	switch name {
-	case "(reflect.Value).Type", "reflect.TypeOf", "invoke reflect.Type.Elem":
+	// functions returning a reflect.Type return a non-nil one (or panic; see B-RFL)
+	if t, ok := in.Type().(*types.Named); ok && t.Obj().Pkg() != nil && t.Obj().Pkg().Path() == "reflect" && t.Obj().Name() == "Type" {
 		st.nonnil[e.vid(in)] = true
 	}
 	if e.ReflectRule != nil {
@@ -908,7 +916,8 @@ func (e *Engine) havocMemoryExcept(st *State, spare map[string]bool) {
 	}
 	for _, m := range []map[string]bool{st.nonnil, st.isnil, st.elemsNN} {
 		for k := range m {
-			if !strings.HasPrefix(k, "v") && !strings.HasPrefix(k, "E") && !keep(k) {
+			b := strings.TrimPrefix(k, "D") // deep-non-nil variant of the same key
+			if !strings.HasPrefix(b, "v") && !strings.HasPrefix(b, "E") && !keep(b) {
 				delete(m, k)
 			}
 		}
